@@ -163,4 +163,56 @@ theorem chunkLoop_fresh (size timeout : Nat) (ht : 1 ≤ timeout) (fuel now : Na
         rw [Nat.add_mul]
         omega
 
+/-! ### the order of the wrappers
+
+`NewBatchProcessor`: `exporter = newTimeoutExporter(exporter, timeout)` FIRST, `exporter = newChunkExporter(exporter, size)`
+SECOND, `newBufferExporter(exporter, bufSize)` LAST: the buffer (export requests, exportSync goroutine) is outermost, the
+chunker is in the middle, the timeout wraps the user exporter directly. The wrappers as combinators over an inner
+`Export` function (context, time, scripted behaviours left, records ↦ calls made, time of return, behaviours left): -/
+
+abbrev Exp := Ctx → Nat → List Beh → List Nat → List Call × Nat × List Beh
+
+/-- the user exporter: one call -/
+def userExp : Exp := fun c now bs l =>
+  let r := userExport (bs.headD .ok) c now
+  ([{ chunk := l, start := now, deadline := c.deadline, expired := c.err now != .ok, res := r.1 }], r.2, bs.tail)
+
+/-- `timeoutExporter{inner, t}.Export` -/
+def timeoutVia (t : Nat) (inner : Exp) : Exp := fun c now bs l => inner (withTimeout t c now) now bs l
+
+/-- `chunkExporter{inner, size}.Export` (fuel ≥ number of records) -/
+def chunkVia (size : Nat) (inner : Exp) (c : Ctx) : Nat → Nat → List Beh → List Nat → List Call × Nat × List Beh
+  | 0, now, bs, _ => ([], now, bs)
+  | fuel + 1, now, bs, l =>
+    if l = [] then ([], now, bs)
+    else
+      let r := inner c now bs (l.take size)
+      let rest := chunkVia size inner c fuel r.2.1 r.2.2 (l.drop size)
+      (r.1 ++ rest.1, rest.2)
+
+/-- what `NewBatchProcessor` builds (inside the buffer): chunk ∘ timeout ∘ user -/
+def bpChain (size t : Nat) (c : Ctx) (now : Nat) (bs : List Beh) (l : List Nat) : List Call × Nat × List Beh :=
+  chunkVia size (timeoutVia t userExp) c l.length now bs l
+
+/-- the other order (NOT the code): timeout ∘ chunk ∘ user — one deadline for the whole request -/
+def swappedChain (size t : Nat) (c : Ctx) (now : Nat) (bs : List Beh) (l : List Nat) : List Call × Nat × List Beh :=
+  timeoutVia t (fun c now bs l => chunkVia size userExp c l.length now bs l) c now bs l
+
+theorem chunkVia_bp (size t : Nat) (c : Ctx) (fuel now : Nat) (bs : List Beh) (l : List Nat) :
+    (chunkVia size (timeoutVia t userExp) c fuel now bs l).1 = (chunkLoop size t c fuel now bs l).1 ∧
+    (chunkVia size (timeoutVia t userExp) c fuel now bs l).2.1 = (chunkLoop size t c fuel now bs l).2 := by
+  induction fuel generalizing now bs l with
+  | zero => simp [chunkVia, chunkLoop]
+  | succ fuel ih =>
+    simp only [chunkVia, chunkLoop]
+    by_cases hl : l = []
+    · simp [hl]
+    · simp only [hl, if_false]
+      have h := ih (oneCall t c now (bs.headD .ok) (l.take size)).2 bs.tail (l.drop size)
+      have e1 : (timeoutVia t userExp c now bs (l.take size)).2.1 = (oneCall t c now (bs.headD .ok) (l.take size)).2 := rfl
+      have e2 : (timeoutVia t userExp c now bs (l.take size)).2.2 = bs.tail := rfl
+      have e3 : (timeoutVia t userExp c now bs (l.take size)).1 = [(oneCall t c now (bs.headD .ok) (l.take size)).1] := rfl
+      rw [e1, e2, e3]
+      exact ⟨by rw [h.1]; rfl, h.2⟩
+
 end Otel.C06.Chain
